@@ -241,7 +241,24 @@ def limits_read_file():
                 if arg is None:
                     continue
                 for lim, want in cases:
-                    got = _got(lambda: list(sharepoint2text.read_file(arg, max_file_size=lim)))
+                    opened = []
+                    real_open, real_io_open = builtins.open, io.open
+
+                    def spy(file, *a, **k):
+                        try:
+                            if os.path.realpath(os.fspath(file)) == os.path.realpath(p):
+                                opened.append(str(file))
+                        except TypeError:
+                            pass
+                        return real_open(file, *a, **k)
+                    builtins.open = io.open = spy
+                    try:
+                        got = _got(lambda: list(sharepoint2text.read_file(arg, max_file_size=lim)))
+                    finally:
+                        builtins.open, io.open = real_open, real_io_open
+                    if got == want == "too-large" and opened:
+                        return {"target": "sharepoint2text/__init__.py::read_file", "inputs": {"file_size": size, "max_file_size": lim, "path_is": how},
+                                "expected": "refused before the file is opened", "observed": f"the file was opened {len(opened)} time(s) before ExtractionFileTooLargeError"}
                     if got != want:
                         return {"target": "sharepoint2text/__init__.py::read_file",
                                 "inputs": {"file_size": size, "max_file_size": lim, "path_is": how,
@@ -470,7 +487,35 @@ def _recorded_findings():
         return []
 
 
+def native_scope(which):
+    """Directed native scopes that run on every check (BOUNDED obligations of the pack)."""
+    import sys as _sys
+    _sys.path.insert(0, os.path.dirname(os.path.abspath(__file__)))
+    import archive_probe
+    if which == "explicit-limits":
+        for fn in (limits_read_file, limits_7z, limit_values, archive_probe.oversize_members, tar_links, entry_limit):
+            r = fn()
+            if r is not None:
+                r["reproduced"] = True
+                return r
+        return {"reproduced": False, "note": "read_file / 7z / per-member / per-entry limits hold at their boundaries (files of 100, 5000, 70000 bytes, symlinks, "
+                                             "the 7z fixture, zip/tar layouts with oversize, same-name and link members)"}
+    if which == "repeat-attribute-classes":
+        rec = {f["id"] for f in _recorded_findings()}
+        ok, inputs, obs = repeat_classes(set(), rec)
+        if ok:
+            return {"reproduced": True, "target": "ods_extractor.py::read_ods", "inputs": inputs, "observed": obs,
+                    "expected": "cost bounded by a fixed multiple of the input size (document class not among the recorded findings)"}
+        return {"reproduced": False, "note": f"{sum(1 for c in REPEAT_CLASSES if c[1] is None or c[1] not in rec)} repeat-attribute document classes outside the recorded findings: none amplifies"}
+    return {"reproduced": False, "note": "unknown scope"}
+
+
 def find(req):
+    scope = (req.get("extra") or {}).get("scope") if isinstance(req.get("extra"), dict) else None
+    if not scope and "native-scope#" in (req.get("obligation") or ""):
+        scope = req["obligation"].split("native-scope#", 1)[1]
+    if scope:
+        return native_scope(scope)
     if req.get("known_finding"):
         ok, inputs, obs = finding(req["known_finding"])
         return {"reproduced": bool(ok), "inputs": inputs, "observed": obs,
